@@ -52,7 +52,11 @@ def configs(draw, wrappers=("interval",), allow_cache0=True, allow_dt=True, allo
     else:
         shape = list(draw(st.sampled_from(shapes)))
     lv = draw(st.sampled_from(levy or LEVY))
-    entropy = draw(st.integers(0, 2 ** 31 - 2))
+    # any non-negative Python int is a valid entropy: mostly 31-bit values, sometimes 0, sometimes beyond 2^53 (where a
+    # round trip through a float would merge neighbours) and beyond 2^64
+    entropy = draw(st.one_of(st.integers(0, 2 ** 31 - 2), st.integers(0, 2 ** 31 - 2), st.integers(0, 2 ** 31 - 2),
+                             st.sampled_from([0, 2 ** 53, 2 ** 53 + 1, 2 ** 63 - 1, 2 ** 64 - 2, 2 ** 64 + 12345]),
+                             st.integers(2 ** 53, 2 ** 64 - 2)))
     dtype = draw(st.sampled_from(list(dtypes)))
     cfg = {"wrapper": wrapper, "t0": t0, "t1": t1, "shape": shape, "levy": lv, "entropy": entropy, "dtype": dtype,
            "cache_size": 45, "dt": None, "tol": 0.0, "halfway": False, "user_W": False, "user_H": False,
